@@ -323,19 +323,29 @@ class InterfaceBase(NameAndModuleComparisonMixin, SpecificationBasePy):
         return self._v_cached_hash
 
     def __eq__(self, other):
-        c = self._compare(other)
-        if c is NotImplemented:
-            return c
-        return c == 0
+        # Equality must not go through the ordering of ``_compare``:
+        # names that cannot be ordered (the ``None`` name of the legacy
+        # doc-as-name form vs. a string) are simply unequal, as in C.
+        if other is self:
+            return True
+        if other is None:
+            return False
+        try:
+            return ((self.__name__, self.__module__)
+                    == (other.__name__, other.__module__))
+        except AttributeError:
+            return NotImplemented
 
     def __ne__(self, other):
         if other is self:
             return False
-
-        c = self._compare(other)
-        if c is NotImplemented:
-            return c
-        return c != 0
+        if other is None:
+            return True
+        try:
+            return ((self.__name__, self.__module__)
+                    != (other.__name__, other.__module__))
+        except AttributeError:
+            return NotImplemented
 
 
 adapter_hooks = _use_c_impl([], 'adapter_hooks')
